@@ -172,8 +172,13 @@ def pending_containers(repo: Repo, f: Func) -> Set[str]:
     """Locals consumed by a `yield <insert change>(...)` (directly or through a loop over them)."""
     kinds = set(change_classes(repo))
     out: Set[str] = set()
+    # nested helpers that build an insert change from their arguments
+    helpers = set()
+    for g in repo.funcs.values():
+        if g.parent is f and any(isinstance(r, ast.Return) and isinstance(r.value, ast.Call) and isinstance(r.value.func, ast.Name) and r.value.func.id in INSERT_KINDS for r in body_nodes(g.node)):
+            helpers.add(g.name)
     for y in body_nodes(f.node):
-        if isinstance(y, ast.Yield) and isinstance(y.value, ast.Call) and isinstance(y.value.func, ast.Name) and y.value.func.id in INSERT_KINDS:
+        if isinstance(y, ast.Yield) and isinstance(y.value, ast.Call) and isinstance(y.value.func, ast.Name) and (y.value.func.id in INSERT_KINDS or y.value.func.id in helpers):
             for x in ast.walk(y.value):
                 if isinstance(x, ast.Name):
                     out.add(x.id)
@@ -215,7 +220,7 @@ def flush(repo: Repo, rep):
         if not (f.module.rel.startswith("_adapter/") or f.module.rel.startswith("_snapshot/")):
             continue
         pend = pending_containers(repo, f)
-        pend = {p for p in pend if "insert" in p}
+        pend = {p for p in pend if "insert" in p or "pending" in p}
         if not pend:
             continue
         cfg = cfg_of(f)
